@@ -20,6 +20,8 @@ use super::{RecvInfo, Transmit};
 use crate::endpoint::RelayStatus;
 
 mod actor;
+#[cfg(iroh_verif)]
+pub(crate) use self::actor::verif as actor_verif;
 
 pub(crate) use self::actor::{Config as RelayActorConfig, HomeRelayWatch, RelayConnectionState};
 use self::actor::{RelayActor, RelayActorMessage, RelayRecvDatagram, RelaySendItem};
